@@ -137,6 +137,9 @@ class Engine:
         sysv = self.sim.v["sys"]
         env = dict(sysv.mod.__dict__)
         env.update(sysv.inst)
+        import types
+
+        env["box"] = types.SimpleNamespace(**sysv.inst)  # dotted attribute paths: box.k1.meth
         import ptera.tools as tools
 
         for name in ("every", "between", "lt", "gt", "lte", "gte", "throttle"):
